@@ -15,7 +15,8 @@ RULE = ("A fitted row-wise estimator (Ngram, Skipgram, LZ, BPE x 3, Histogram, K
         "integer outputs, rtol 1e-6 otherwise, rtol 1e-4 / atol 1e-6 for Sinkhorn-based outputs. The check is run in shards with "
         "NUMBA_NUM_THREADS 1, 4 and 16 for the prange kernels. Non-trivial: the plan moves at least one item to a different batch, chunk "
         "or position; distinct by SHA-1 of the case.")
-ASSUMPTIONS = ["Sinkhorn iterations share one stopping test per chunk; converged iterates differ at the 1e-9 level (tolerance 1e-4)",
+ASSUMPTIONS = ["NaN outputs (InformationWeightTransformer with degenerate weights, finding F27 of C17) are compared position-wise as equal: C12 is about batch independence",
+               "Sinkhorn iterations share one stopping test per chunk; converged iterates differ at the 1e-9 level (tolerance 1e-4)",
                "all-zero distributions are not generated here (recorded finding F26 territory is probed separately by the zero_row family)"]
 
 
@@ -80,19 +81,19 @@ def make_check(name):
         k = plan["split"]
         a, b = tr(gather(fam, spec, picks[:k]), "first batch"), tr(gather(fam, spec, picks[k:]), "second batch")
         if a is not None and b is not None:
-            msg = rows_equal(np, a + b, base, fam.exact, *tol)
+            msg = rows_equal(np, a + b, base, fam.exact, *tol, equal_nan=True)
             if msg:
                 r.fail("batch-split", site + ".transform", "transform(A + B) != vstack(transform(A), transform(B)) with |A| = %d: %s" % (k, msg), **ptags(name, spec))
         perm = plan["perm"]
         p = tr(gather(fam, spec, [picks[i] for i in perm]), "permuted")
         if p is not None:
-            msg = rows_equal(np, p, [base[i] for i in perm], fam.exact, *tol)
+            msg = rows_equal(np, p, [base[i] for i in perm], fam.exact, *tol, equal_nan=True)
             if msg:
                 r.fail("permutation", site + ".transform", "transform(perm(X)) != perm(transform(X)): %s" % msg, **ptags(name, spec))
         seen = {}
         for i, pk in enumerate(picks):
             if pk in seen:
-                msg = rows_equal(np, [base[i]], [base[seen[pk]]], fam.exact, *tol)
+                msg = rows_equal(np, [base[i]], [base[seen[pk]]], fam.exact, *tol, equal_nan=True)
                 if msg:
                     r.fail("duplicate-rows", site + ".transform", "items %d and %d are identical but their rows differ: %s" % (seen[pk], i, msg), **ptags(name, spec))
                     break
@@ -107,6 +108,39 @@ def make_check(name):
 def ptags(name, spec):
     p = spec.get("params") or {}
     return {"chunk": p.get("sinkhorn_chunk_size", p.get("chunk_size")), "memory": p.get("memory_size")}
+
+
+def make_zero_row_check(name):
+    """an all-zero distribution inside a batch must not change the rows of the other distributions"""
+    def check(spec):
+        fam = F.get(name)
+        np = F.lib()["np"]
+        r = Result()
+        r.label("family:" + name)
+        site = name
+        s, est = call(fam.make, copy.deepcopy(spec))
+        s, _ = call(F.fit_call, fam, est, spec, "fit")
+        if s == "exc":
+            r.label("fit-rejected")
+            return r
+        test = spec["test"]
+        m = len(test["V"])
+        pos = spec["plan"]["split"] % (len(test["W"]) + 1)
+        withzero = {"W": test["W"][:pos] + [[0] * m] + test["W"][pos:], "V": test["V"]}
+        s, a = call(F.transform_call, fam, est, spec, test)
+        s2, b = call(F.transform_call, fam, est, spec, withzero)
+        if s == "exc" or s2 == "exc":
+            e = a if s == "exc" else b
+            r.fail(exc_kind(e), site + ".transform[zero row]", exc_detail(e))
+            return r
+        A, B = fam.canon(a, spec), fam.canon(b, spec)
+        B_others = B[:pos] + B[pos + 1:]
+        msg = rows_equal(np, B_others, A, False, 1e-4, 1e-6, equal_nan=True)
+        if msg:
+            r.fail("zero-row-contaminates", site + ".transform", "an all-zero distribution at position %d changed the rows of the other distributions: %s" % (pos, msg))
+        r.nontrivial = len(test["W"]) >= 2
+        return r
+    return check
 
 
 ROW_WISE = [("ngram", 300, 3000), ("skipgram", 150, 1500), ("lz", 200, 2000), ("bpe_sequences", 200, 2000), ("bpe_tokens", 100, 1000),
@@ -126,3 +160,7 @@ for _n in ("bpe_sequences", "iw", "wass_LOT_exact_spmatrix"):
         _f = F.get(_n)
         FAMILIES["%s@threads=%s" % (_n, _nb)] = Family(with_plan(_f), make_check(_n), {"quick": 60, "thorough": 600}, {"quick": 1, "thorough": 3},
                                                        env={"NUMBA_NUM_THREADS": _nb})
+
+for _n in ("wass_LOT_exact_spmatrix", "wass_LOT_sinkhorn_spmatrix", "sinkhorn"):
+    _f = F.get(_n)
+    FAMILIES["%s@zero_row" % _n] = Family(with_plan(_f), make_zero_row_check(_n), {"quick": 50, "thorough": 500}, {"quick": 1, "thorough": 3})
